@@ -237,16 +237,18 @@ class MLMCPath(MCPath):
         path_coarse = path[PT.CP, ...]
         jump_path_fine = jump_path[PT.FP, ...]
         jump_path_coarse = jump_path[PT.CP, ...]
+        # each payoff is evaluated right after its own path has been processed: path-dependent payoffs keep the
+        # information extracted from the last processed path
         payoff_underlying_from_fp = product.underlying_value(
             times, path_fine, jump_path_fine
         )
+        payoff_fine = product(payoff_underlying_from_fp)
         payoff_underlying_from_cp = product.underlying_value(
             times, path_coarse, jump_path_coarse
         )
+        payoff_coarse = product(payoff_underlying_from_cp)
         # the fine/coarse values are stored on the last axis (one row per payoff component), as in the statistics
-        self.payoff = np.array(
-            [product(payoff_underlying_from_fp), product(payoff_underlying_from_cp)]
-        ).T
+        self.payoff = np.array([payoff_fine, payoff_coarse]).T
         self.process_spot_level_l(path_fine, path_coarse)
         self.payoff_control_variates = control_variates.process_mlmc(
             times,
